@@ -656,14 +656,18 @@ func c02NewCombos(full bool, labels []string) []c02Case {
 	return out
 }
 
-func c02RegCombos(full bool, labels []string) []c02Case {
+func c02RegCombos(full bool, labels []string, descFull bool) []c02Case {
 	var out []c02Case
 	if full {
 		type ds struct {
 			l    string
 			data bool
 		}
-		for _, d := range []ds{{"-", false}, {"R256", false}, {"W256", false}, {"R512", false}, {"R256", true}, {"W256", true}, {"R512", true}} {
+		descs := []ds{{"-", false}, {"R256", false}, {"W256", false}, {"R512", false}, {"R256", true}, {"W256", true}, {"R512", true}}
+		if !descFull {
+			descs = []ds{{"-", false}, {"R256", true}, {"W256", true}}
+		}
+		for _, d := range descs {
 			for _, r := range labels {
 				for _, hd := range labels {
 					for _, ct := range []int{0, 1, 2, 3} {
@@ -736,7 +740,7 @@ func TestVerifC02Fetch(t *testing.T) {
 	rec.Rule("part A: case = (entry point ∈ {manifest.New, RegClient.ManifestGet over reg, RegClient.ManifestGet over ocidir}) × manifest body × source combination. " +
 		"Bodies: 7 generated kinds (OCI image/index/artifact, Docker image/list, schema1, synthetic signed schema1) × [19 content variants (annotations present/{}/null, subject, embedded data, artifactType, mediaType declared/absent/contradicting/wrong-case key, unknown member at top/descriptor/platform level, float size, empty list) × 7 whitespace styles × escaped/raw strings × nested member order] ∪ [every permutation of the top-level keys (≤5 permuted keys quick, ≤6 thorough) × 2 styles], plus the real signed fixture in 5 envelope variants and 9 degenerate bodies. " +
 		"Sources: digest label ∈ {none, right sha256, wrong sha256, right sha512, wrong sha512, sha256 of a different encoding of the same value (signed: of the whole envelope), syntactically invalid; thorough adds unknown algorithm, upper-case hex, right sha384} for each of descriptor / reference / Docker-Content-Digest (new, reg) or index entry / reference (ocidir), × media-type source (descriptor or Content-Type: none/agreeing/contradicting/with parameter) × descriptor size right/wrong/zero × descriptor with embedded data. " +
-		"quick: full source matrix × the core bodies (content variants in 2 encodings, fixture, degenerate) and single-source matrix × all bodies; thorough: full matrix × all bodies. " +
+		"quick: full source matrix × the core bodies (content variants in 2 encodings, fixture, degenerate) and single-source matrix × all other bodies; thorough: full 10-label matrix × core bodies, full 7-label matrix × all other bodies (counts in A.combos_per_*_body). " +
 		"distinct_nontrivial = distinct (entry, body, source combination) among cases that returned a manifest and in which at least one expected digest was supplied or the body differs from regclient's own marshalling of the parsed value")
 	rec.Assume("when several expected digests are supplied only the first in the documented precedence descriptor > reference > Docker-Content-Digest is demanded to name the bytes (manifest.New documents that later digests are ignored); a Docker-Content-Digest value that is not a digest announces nothing")
 	rec.Assume("crypto/sha256, crypto/sha512 and encoding/json of the Go standard library are trusted; schema1 signatures are not verified (regclient does not verify them either), only the JWS payload framing is re-derived")
@@ -765,12 +769,34 @@ func TestVerifC02Fetch(t *testing.T) {
 		return
 	}
 
-	coreNew, coreReg, coreOCI := c02NewCombos(true, labels), c02RegCombos(true, labels), c02OCIDirCombos(true, labels)
-	redNew, redReg, redOCI := c02NewCombos(false, labels), c02RegCombos(false, labels), c02OCIDirCombos(false, labels)
-	rec.Info("A.combos_full", map[string]int{"new": len(coreNew), "reg": len(coreReg), "ocidir": len(coreOCI)})
-	rec.Info("A.combos_single_source", map[string]int{"new": len(redNew), "reg": len(redReg), "ocidir": len(redOCI)})
+	// quick:    core bodies × full matrix (7 labels);  other bodies × single-source matrix (7 labels)
+	// thorough: core bodies × full matrix (10 labels); other bodies × full matrix (7 labels, descriptor
+	//           option of RegClient.ManifestGet reduced to none / right+data / wrong+data) plus the
+	//           single-source matrix of the 3 extra labels
+	var coreSets, restSets [][]c02Case
+	if rec.Thorough() {
+		coreSets = [][]c02Case{c02NewCombos(true, labels), c02RegCombos(true, labels, true), c02OCIDirCombos(true, labels)}
+		extra := append([]string{"-"}, labels[len(c02DigLabels):]...)
+		restSets = [][]c02Case{c02NewCombos(true, c02DigLabels), c02RegCombos(true, c02DigLabels, false), c02OCIDirCombos(true, c02DigLabels),
+			c02NewCombos(false, extra)}
+	} else {
+		coreSets = [][]c02Case{c02NewCombos(true, labels), c02RegCombos(true, labels, true), c02OCIDirCombos(true, labels)}
+		restSets = [][]c02Case{c02NewCombos(false, labels), c02RegCombos(false, labels, true), c02OCIDirCombos(false, labels)}
+	}
+	count := func(sets [][]c02Case) map[string]int {
+		m := map[string]int{}
+		for _, set := range sets {
+			for _, c := range set {
+				m[c.Entry]++
+			}
+		}
+		return m
+	}
+	rec.Info("A.combos_per_core_body", count(coreSets))
+	rec.Info("A.combos_per_other_body", count(restSets))
 	outcomes := map[string]int64{}
 	expired := false
+	sampled := 0
 	for bi, body := range bodies {
 		if !rec.Mine(bi) {
 			continue
@@ -782,10 +808,10 @@ func TestVerifC02Fetch(t *testing.T) {
 		}
 		rec.Count("A.bodies", 1)
 		rec.Count("A.bodies."+c02KindName[body.Kind], 1)
-		full := body.Core || rec.Thorough()
-		sets := [][]c02Case{redNew, redReg, redOCI}
-		if full {
-			sets = [][]c02Case{coreNew, coreReg, coreOCI}
+		sets := restSets
+		if body.Core {
+			sets = coreSets
+			rec.Count("A.bodies_core", 1)
 		}
 		b64 := base64.StdEncoding.EncodeToString(body.B)
 		for _, set := range sets {
@@ -793,11 +819,20 @@ func TestVerifC02Fetch(t *testing.T) {
 				c.Part, c.Kind, c.Label, c.BodyB64 = "A", c02KindName[body.Kind], body.Label, b64
 				o := h.run(body.Kind, body.B, c)
 				outcomes[o]++
-				if o == "ok" && bi%611 == 3 && ci%97 == 11 {
+				if (o == "ok" && c.Ref == "R512" && c.Hdr == "W256" && sampled&1 == 0) || (o == "error" && c.Desc == "ALT256" && sampled&2 == 0) || (o == "ok" && c.Entry == "ocidir" && sampled&4 == 0) {
+					switch {
+					case o == "error":
+						sampled |= 2
+					case c.Entry == "ocidir":
+						sampled |= 4
+					default:
+						sampled |= 1
+					}
 					s := c
 					s.BodyB64 = ""
 					rec.Sample(map[string]any{"case": s, "body": short(body.B, 160), "outcome": o})
 				}
+				_ = ci
 			}
 		}
 	}
